@@ -256,12 +256,9 @@ func (s *Storage) commit(context interpreter.ValueTransferContext, commitContrac
 		s.commitContractUpdates(context)
 	}
 
-	err := s.AccountStorage.commit()
-	if err != nil {
-		return err
-	}
-
-	// Commit the underlying slab storage's writes
+	// Meter the commit before any register is written:
+	// if a metering limit is exceeded, the execution fails,
+	// and a failed execution must not have written to the ledger.
 
 	slabStorage := s.PersistentSlabStorage
 
@@ -283,6 +280,15 @@ func (s *Storage) commit(context interpreter.ValueTransferContext, commitContrac
 
 	deltas := slabStorage.DeltasWithoutTempAddresses()
 	common.UseMemory(context, common.NewAtreeEncodedSlabMemoryUsage(deltas))
+
+	// Commit the account storage map registers
+
+	err := s.AccountStorage.commit()
+	if err != nil {
+		return err
+	}
+
+	// Commit the underlying slab storage's writes
 
 	// TODO: report encoding metric for all encoded slabs
 	workerCount := goRuntime.NumCPU()
